@@ -32,7 +32,7 @@ ASSUMPTIONS = [
 ]
 BUDGET = {
     "quick": {"shards": 16, "examples": 2, "wall": 110, "seeds": 4, "batch": 3},
-    "thorough": {"shards": 16, "examples": 10, "wall": 1200, "seeds": 24, "batch": 6},
+    "thorough": {"shards": 16, "examples": 100, "wall": 900, "seeds": 24, "batch": 6},
 }
 
 
